@@ -61,7 +61,7 @@ for D in (1, 2, 3):
                    ('every other element of both storages is untouched', ' && '.join('IMPLIES(!%s, G_blk[0].val[%d] == g_va[%d]) && IMPLIES(!%s, G_blk[1].val[%d] == g_vb[%d])' % (inview('d', p, D), p, p, inview('s', p, D), p, p) for p in range(G_ELEMS))),
                    ('no allocation, nothing released, no element left dead', 'G_nalloc == 0 && G_ndealloc == 0 && %s == 2 && %s == 2*G_ELEMS' % (owned_blocks(), total_live()))],
           covers=[' && '.join('g_n%d == %d' % (k, BNDS[D][k]) for k in range(D))],
-          assigns=[], **COMMON, tier='quick' if D == 1 else 'thorough')
+          assigns=[], **COMMON, tier='quick' if D <= 2 else 'thorough')
 
 # element_moved(): a view over move pointers with exactly the layout and first element of the source view (moving from it moves from exactly the viewed elements)
 Group('views', ['boost/multi/array.hpp'], prelude="""
